@@ -689,7 +689,10 @@ def unpack_generic_serializable_type(spec: ValueSpec) -> Optional[Expression]:
     with suppress(TypeError):
         if issubclass(spec.origin_type, GenericSerializableType):
             type_arg_names = ", ".join(
-                list(map(type_name, get_args(spec.type)))
+                map(
+                    spec.builder.get_type_name_identifier,
+                    get_args(spec.type),
+                )
             )
             field_type = spec.builder.get_type_name_identifier(
                 spec.origin_type
@@ -1287,7 +1290,9 @@ def unpack_collection(spec: ValueSpec) -> Optional[Expression]:
         )
     elif ensure_generic_mapping(spec, args, collections.defaultdict):
         spec.builder.ensure_module_imported(collections)
-        default_type = type_name(args[1] if args else None)
+        default_type = spec.builder.get_type_name_identifier(
+            args[1] if args else None
+        )
         return (
             f"collections.defaultdict({default_type}, "
             f"{{{inner_expr(0, 'key')}: "
